@@ -149,7 +149,7 @@ impl Campaign for C10c {
         "C10"
     }
     fn rule(&self) -> &'static str {
-        "seeded scenarios: a pipeline of 1..4 requests with one mutated into a malformed/unsupported class (short request line, unknown version token, version above 1.1, header without colon, non-ASCII byte, Expect other than 100-continue in any letter case) at every position; earlier requests are answered by handler threads after generated virtual delays (plain responses, Expect: 100-continue + as_reader whose interim response is flushed, raw writers flushed part-way) so the automatic response has to wait its turn; generated segmentation; non-trivial = the bad request is not the first of its connection or further requests follow it; distinct = interleaving fingerprint"
+        "seeded scenarios: a pipeline of 1..4 requests with one mutated into a malformed/unsupported class (short request line, unknown version token, version above 1.1, header without colon, non-ASCII byte, Expect other than 100-continue in any letter case) at every position; earlier requests are answered by handler threads after generated virtual delays (plain responses, Expect: 100-continue + as_reader whose interim response is flushed, raw writers flushed part-way) so the automatic response has to wait its turn; in one run of six the client's bytes end 1..4 bytes before the end of the offending head (then waiting, or closing its sending side); generated segmentation; non-trivial = the bad request is not the first of its connection or further requests follow it; distinct = interleaving fingerprint"
     }
     fn runs(&self, tier: Tier) -> u64 {
         match tier {
@@ -173,16 +173,27 @@ impl Campaign for C10c {
             bad.extend_from_slice(&bad2);
             tag = format!("{}+{}", tag, tag2);
         }
-        let msgs = pipeline_with(&mut g, &mut sc, 0, n, bad_pos, bad, true);
+        let mut msgs = pipeline_with(&mut g, &mut sc, 0, n, bad_pos, bad, true);
+        // one run in six: the client's bytes end inside the offending head, 1..4 bytes before its
+        // end (the outcome is due as soon as the offending line is complete, whatever follows)
+        let cut_short = index % 6 == 3 && !tag.contains('+');
+        if cut_short {
+            msgs.truncate(bad_pos + 1);
+            let last = msgs.last_mut().unwrap();
+            // inside the head: an announced body is dropped as well
+            let head_end = last.windows(4).position(|w| w == b"\r\n\r\n").map(|p| p + 4).unwrap_or(last.len());
+            let cut = g.usize(1, 4).min(head_end - 1);
+            last.truncate(head_end - cut);
+        }
         let seg = seg_of(&mut g);
         let mut c = ConnScript { steps: segment(&msgs, seg, *g.pick(&[0u64, MS]), &mut g), ..Default::default() };
         c.coalesce = g.chance(1, 2);
-        if g.chance(1, 5) {
+        if g.chance(1, if cut_short { 2 } else { 5 }) {
             c.steps.push(ClientStep::HalfClose);
         }
         sc.conns.push(c);
         sc.receivers = loop_receivers(g.usize(1, 2), if g.chance(3, 4) { Dispatch::Spawn } else { Dispatch::Inline });
-        sc.note = format!("C10 index {} class={} pos={}/{}", index, tag, bad_pos, n);
+        sc.note = format!("C10 index {} class={} pos={}/{}{}", index, tag, bad_pos, n, if cut_short { " cut short" } else { "" });
         sc
     }
     fn check(&self, sc: &Scenario, out: &RunOut) -> Verdict {
@@ -229,6 +240,21 @@ impl Campaign for C10c {
 // ---------------------------------------------------------------------------
 
 pub fn smuggle_request(g: &mut Rng, id: &str, smuggled_id: &str) -> (Vec<u8>, String) {
+    let (mut bytes, tag) = smuggle_request_plain(g, id, smuggled_id);
+    if g.chance(1, 4) {
+        // the offending line comes late in a long head: k well-formed fields precede it
+        let k = *g.pick(&[20usize, 63, 64, 65, 100, 300]);
+        let filler: String = (0..k).map(|i| format!("X-F{}: f{}\r\n", i, i)).collect();
+        if let Some(p) = bytes.windows(2).position(|w| w == b"\r\n") {
+            let tail = bytes.split_off(p + 2);
+            bytes.extend_from_slice(filler.as_bytes());
+            bytes.extend_from_slice(&tail);
+        }
+    }
+    (bytes, tag)
+}
+
+fn smuggle_request_plain(g: &mut Rng, id: &str, smuggled_id: &str) -> (Vec<u8>, String) {
     let inner = Req::get(smuggled_id).bytes();
     let idl = format!("X-Id: {}", id);
     let ws = *g.pick(&[" ", "\t", "  "]);
@@ -289,7 +315,7 @@ impl Campaign for C16c {
         "C16"
     }
     fn rule(&self) -> &'static str {
-        "seeded scenarios: a pipeline of 1..4 requests, one of which uses smuggling-prone header syntax (SP/HTAB before the header name, inside it, or before the colon, on framing headers and on arbitrary ones; Content-Length values empty, signed, non-digit, mixed, list, overflowing) at every position, its body being a complete would-be smuggled request, followed by further pipelined requests; earlier requests answered with delays; non-trivial = every run (each carries an offending request followed by a smuggled one); distinct = interleaving fingerprint"
+        "seeded scenarios: a pipeline of 1..4 requests, one of which uses smuggling-prone header syntax (SP/HTAB before the header name, inside it, or before the colon, on framing headers and on arbitrary ones; Content-Length values empty, signed, non-digit, mixed, list, overflowing; in a quarter of the runs after 20..300 well-formed fields) at every position, its body being a complete would-be smuggled request, followed by further pipelined requests; earlier requests answered with delays; non-trivial = every run (each carries an offending request followed by a smuggled one); distinct = interleaving fingerprint"
     }
     fn runs(&self, tier: Tier) -> u64 {
         match tier {
@@ -356,7 +382,7 @@ impl Campaign for C12c {
         "C12"
     }
     fn rule(&self) -> &'static str {
-        "seeded scenarios: pipelines of 1..4 requests, version {1.0,1.1} x one Connection header {absent, close, keep-alive, upgrade, other token, token lists; any letter case} at every position, followed by further valid requests; handlers answer after generated delays and in any order; the client half-closes after its last byte in half of the runs; in one run of six the varied request announces a streamed body (Content-Length above the buffering limit, or chunked) that the handler never reads and the client holds back until the response has arrived and, when the request ends the connection, until end-of-stream; one run in five is a mixed-feature conversation; non-trivial = a connection-ending request is followed by further bytes, or the client half-closes with answers outstanding; distinct = interleaving fingerprint"
+        "seeded scenarios: pipelines of 1..4 requests, version {1.0,1.1} x one Connection header {absent, close, keep-alive, upgrade, other token, token lists; any letter case} at every position, followed by further valid requests; handlers answer after generated delays and in any order; the client half-closes after its last byte in half of the runs; in one run of six the varied request carries a streamed body (Content-Length above the buffering limit, or chunked) that the handler never reads, sent at once or held back by the client until the response has arrived and, when the request ends the connection, until end-of-stream; the server must not release the connection with bytes of the last request unread; one run in five is a mixed-feature conversation; non-trivial = a connection-ending request is followed by further bytes, or the client half-closes with answers outstanding; distinct = interleaving fingerprint"
     }
     fn runs(&self, tier: Tier) -> u64 {
         match tier {
@@ -376,7 +402,7 @@ impl Campaign for C12c {
         // one run in six: the special request announces a streamed body which the client holds
         // back until the server has answered (the handler never reads it) and, when that request
         // ends the connection, until the server has closed its sending side
-        let withhold = index % 6 == 5;
+        let streamed = index % 6 == 5;
         let mut msgs = vec![];
         for r in 0..n {
             let id = format!("c0r{}", r);
@@ -392,7 +418,7 @@ impl Campaign for C12c {
                     rq = rq.header(name, conn);
                 }
             }
-            if r == special && withhold {
+            if r == special && streamed {
                 // a streamed body (declared length above the buffering limit, or chunked)
                 let payload = token_body("w", *g.pick(&[1025usize, 3000, 9000]));
                 rq = if g.chance(1, 3) { rq.with_chunked(&payload, &[700, 2000]) } else { rq.with_body(payload) };
@@ -415,6 +441,12 @@ impl Campaign for C12c {
         // request (otherwise the special one is never reached and nothing is due for it)
         let model = crate::httpmodel::parse_requests(&msgs.concat());
         let reached = model.len() > special && model[..special].iter().all(|m| m.class == crate::httpmodel::Class::Valid && !m.last);
+        // half of those bodies are held back, the others sent at once and simply never read
+        let withhold = streamed && g.chance(1, 2);
+        if streamed && reached {
+            let p = sc.programs.get_mut(&format!("c0r{}", special)).unwrap();
+            p.body = BodyPlan::None;
+        }
         if withhold && reached {
             let m = &model[special];
             let head_len = m.head_end - m.start;
@@ -432,8 +464,6 @@ impl Campaign for C12c {
                 rest.extend(msgs[special + 1..].iter().cloned());
                 c.steps.extend(segment(&rest, seg, pause, &mut g));
             }
-            let p = sc.programs.get_mut(&format!("c0r{}", special)).unwrap();
-            p.body = BodyPlan::None;
         } else {
             c.steps = segment(&msgs, seg, pause, &mut g);
         }
@@ -443,7 +473,7 @@ impl Campaign for C12c {
         }
         sc.conns.push(c);
         sc.receivers = loop_receivers(g.usize(1, 2), if g.chance(3, 4) { Dispatch::Spawn } else { Dispatch::Inline });
-        sc.note = format!("C12 index {} n={}{}", index, n, if withhold && reached { " withheld" } else { "" });
+        sc.note = format!("C12 index {} n={}{}", index, n, if withhold && reached { " withheld" } else if streamed && reached { " streamed body unread" } else { "" });
         sc
     }
     fn check(&self, sc: &Scenario, out: &RunOut) -> Verdict {
@@ -474,6 +504,15 @@ impl Campaign for C12c {
                 detail: format!("{}: {}. blocked: {}", sc.note, text, describe_blocked(main)),
             });
             break;
+        }
+        if v.violations.is_empty() {
+            if let Some((id, n)) = super::conv::closed_with_unread(sc, out, 0, &e) {
+                v.violations.push(Violation {
+                    clause: "C12.orderly_close".into(),
+                    signature: "the connection is released with bytes of the last request still unread".into(),
+                    detail: format!("{}: the server shut down its reading side / closed the socket while {} bytes of the body of the connection-ending request {} were still unread (a kernel answers that close with a reset, which can destroy the tail of the last response)", sc.note, n, id),
+                });
+            }
         }
         let bytes = sent_bytes(&sc.conns[0]);
         let after = e.msgs.iter().find(|m| m.last).map(|m| m.end < bytes.len()).unwrap_or(false);
